@@ -504,12 +504,22 @@ Fixpoint collect_parse {A} (lossy : bool) (l : list (presult A)) : presult (list
   | POk x :: r => match collect_parse lossy r with POk xs => POk (x :: xs) | o => o end
   end.
 (** Builder::parse (strict) / parse_lossy: split on ',', drop empty pieces, parse each *)
+Definition parse_dirs (regex lossy : bool) (s : bytes) : presult (list ddir) :=
+  collect_parse lossy (map (parse_ddir regex) (filter (fun p => negb (is_nil p)) (split_on cCOMMA s))).
 Definition parse_env (regex lossy : bool) (default : option ddir) (s : bytes) : presult envf :=
-  match collect_parse lossy (map (parse_ddir regex) (filter (fun p => negb (is_nil p)) (split_on cCOMMA s))) with
+  match parse_dirs regex lossy s with
   | POk ds => POk (env_build default ds)
   | PErr => PErr
   | PUnmodelled => PUnmodelled
   end.
+(** a debug build: `Dynamics::from_iter` adds the dynamic directives one by one; `binary_search` compares the new one with
+    the element of equal key, if there is one, and the assertion inside `Directive::cmp` is evaluated on that pair *)
+Fixpoint build_panics (dirs : list ddir) (acc : dyset) : bool :=
+  match dirs with
+  | [] => false
+  | d :: r => existsb (fun x => ord_assert_fails x d) (ds_dirs acc) || build_panics r (d_add acc d)
+  end.
+Definition env_build_panics (dirs : list ddir) : bool := build_panics (filter is_dynamic dirs) ds_empty.
 Definition display_env (e : envf) : bytes :=
   join [cCOMMA] (map display_sdir (ds_dirs (e_statics e)) ++ map display_ddir (ds_dirs (e_dynamics e))).
 Definition has_value_filters (e : envf) : bool :=
@@ -754,6 +764,12 @@ Definition run_env (regex lossy : bool) (s : bytes) (pool : list meta) : N * byt
   | POk e =>
       (2, display_env e, enc_lf (env_hint e),
        map (fun m => let '(st, i) := register_callsite e est0 0 m in (enc_interest i, enc_b (env_enabled e st 0 0 m))) pool)
+  end.
+(** does building the filter trip the debug assertion?  0 = no, 1 = yes, 2 = not modelled / parse error *)
+Definition run_env_panics (regex lossy : bool) (s : bytes) : N :=
+  match parse_dirs regex lossy s with
+  | POk ds => enc_b (env_build_panics ds)
+  | _ => 2
   end.
 Definition enc_obs (o : option bool) : N := match o with None => 2 | Some true => 1 | Some false => 0 end.
 Definition run_env_history (regex : bool) (s : bytes) (ops : list op) : N * list N * list N :=
